@@ -171,8 +171,11 @@ PROPS = {
     ),
     "C05": dict(
         runs=[("crash", "", "crashrun", 400, 20000, 0)],
-        corr={"model:footer-choice", "model:open-result", "model:write-barrier", "driver-error", "harness-error"}, corr_held=False,
-        spec={"spec:open-failed", "spec:open-panic", "spec:not-a-prefix", "spec:lost-synced-round", "spec:first-round-unopenable"},
+        corr={"model:footer-choice", "model:open-result", "model:write-barrier", "model:files-discipline", "driver-error", "harness-error"}, corr_held=False,
+        spec={"spec:open-failed", "spec:open-panic", "spec:not-a-prefix", "spec:lost-synced-round", "spec:first-round-unopenable",
+              "spec:lost-synced-round-sync-opted-out", "model:files-discipline-sync-opted-out",
+              "spec:lost-synced-round-nosync-partial-writeback", "spec:not-a-prefix-nosync-partial-writeback",
+              "spec:open-failed-nosync-partial-writeback", "spec:open-panic-nosync-partial-writeback"},
         spec_held=False,
         rule="workloads of 2-6 persisted rounds (append persists, leveled partial compactions, forced full compactions, "
              "sync on/off, 1 or 512 buffer pages) are recorded through a wrapping File; crash points: every operation "
@@ -186,13 +189,24 @@ PROPS = {
         technique="Coq proof (backward footer scan: finds the last complete footer and ignores any tail) + crash-image enumeration on recorded traces, same bytes to model and code",
     ),
     "C19": dict(
-        runs=[("codec", "", "codecrun", 200, 3000, 0), ("coll", "flat", "flatrun", 160, 3000, 20),
+        runs=[("codec", "", "codecrun", 200, 3000, 0), ("batchbuf", "", "batchbufrun", 2400, 40000, 0),
+              ("coll", "flat", "flatrun", 160, 3000, 20),
               ("crash", "", "crashrun", 160, 6000, 0)],
-        corr={"model:codec-word", "model:guard", "model:load-segment", "model:segment-layout", "model:roundtrip",
-              "model:footer-choice", "model:open-result", "model:write-barrier", "driver-error", "harness-error"} | STRUCT | READS, corr_held=False,
+        corr={"model:batchbuf-res", "model:batchbuf-len", "model:batchbuf-cap", "model:batchbuf-buf", "model:batchbuf-kvs",
+              "model:batchbuf-handle", "model:batchbuf-entries", "model:batchbuf-find", "model:batchbuf-get",
+              "model:codec-word", "model:guard", "model:load-segment", "model:segment-layout", "model:roundtrip",
+              "model:footer-choice", "model:open-result", "model:write-barrier", "model:files-discipline", "driver-error", "harness-error"} | STRUCT | READS, corr_held=False,
         spec={"spec:limits", "spec:gets", "spec:iter", "spec:open-failed", "spec:open-panic", "spec:not-a-prefix",
-              "spec:lost-synced-round"}, spec_held=False,
-        rule="function level: 400 (op,keyLen,valLen) words per run at boundary lengths 0,1,2^16,2^24-1,2^24,2^24+1,2^28-1,"
+              "spec:lost-synced-round", "spec:batchbuf-entries", "spec:batchbuf-sort", "spec:batchbuf-find",
+              "spec:batchbuf-get", "spec:batchbuf-rejected-changed"}, spec_held=False,
+        rule="batch buffer at function level: call sequences of 4-17 calls (Set/Del/Merge, Alloc, copy into a handle incl. "
+             "short and long copies, AllocSet/AllocDel/AllocMerge of staged handles in any order, split anywhere, nil value) "
+             "on batches of capacity 0-200 so that plain operations outgrow the buffer, two thirds ending in sort.Sort and six "
+             "Get/Cursor probes; after every call the error, len/cap/bytes of buf, kvs words and the entries decoded by the "
+             "real getOperationKeyVal are compared with the extracted BatchBuf model and with the list of operations that "
+             "returned nil; one case per process with real oversize lengths (2^24-byte key between accepted operations, "
+             "Alloc-built and plain), one with the stale-handle witness; "
+             "function level: 400 (op,keyLen,valLen) words per run at boundary lengths 0,1,2^16,2^24-1,2^24,2^24+1,2^28-1,"
              "2^28,2^28+1 and random, 200 page alignments; API level: a batch with a 2^24-byte key (rejected with "
              "ErrKeyTooLarge) between accepted operations, and a 2^24-1 byte key; byte level: segments with adversarial "
              "keys/values (empty, 0x00/0xFF, footer-magic look-alikes, page-size multiples) persisted by the real store "
